@@ -21,6 +21,7 @@
      - ProcessStateCtx runs at the apply point (also when a final handler
        faults later);
      - processSubscriptions runs iff the transition is accepted and not a check;
+       a canceled non-check transition runs ProcessWhenQueue alone;
      - the queue tick was incremented when the mutation was popped iff it
        carried a queue tick. *)
 
@@ -96,7 +97,8 @@ Definition tx_events (sc : schema) (topo : list nat) (ops : list sched_op) (hl :
   ++ (if tx_applied r then [EStateCtx act deact] else [])
   ++ hops true
   ++ ops_at ops (PSubs j) vsub
-  ++ (if tx_processed r then [EProcess act deact (tx_before r) (tx_mach_after r) qt] else [])
+  ++ (if tx_processed r then [EProcess act deact (tx_before r) (tx_mach_after r) qt]
+      else if negb (tx_check r) then [EQueueTick qt] else [])
   ++ [ETxEnd vend (tx_processed r)].
 
 Fixpoint txs_events (sc : schema) (topo : list nat) (ops : list sched_op) (hl : list hlentry)
